@@ -103,6 +103,68 @@ pub fn dispatch(op: &str, a: &[Arg]) -> Option<String> {
             }
             ol(&outs)
         }
+        // faultstream x<data> k mode: the streaming API over a source whose k-th read (counted from 0) fails; k beyond the
+        // run = failure-free.  mode 0 = ZipStreamReader::visit, mode 1 = read_zipfile_from_stream until the end, every
+        // entry read completely, mode 2 = the same with every entry dropped unread.  -> [reads-made [files] [metas] result]
+        "faultstream" => {
+            struct FaultRead {
+                inner: Cursor<Vec<u8>>,
+                n: std::rc::Rc<std::cell::Cell<u64>>,
+                fail_at: u64,
+            }
+            impl Read for FaultRead {
+                fn read(&mut self, b: &mut [u8]) -> std::io::Result<usize> {
+                    let c = self.n.get();
+                    self.n.set(c + 1);
+                    if c == self.fail_at {
+                        return Err(std::io::Error::new(std::io::ErrorKind::Other, "injected"));
+                    }
+                    self.inner.read(b)
+                }
+            }
+            let n = std::rc::Rc::new(std::cell::Cell::new(0u64));
+            let mut src = FaultRead { inner: Cursor::new(a[0].b().to_vec()), n: n.clone(), fail_at: a[1].n() as u64 };
+            if a[2].n() == 0 {
+                let mut v = V { files: vec![], metas: vec![] };
+                let r = ZipStreamReader::new(src).visit(&mut v);
+                format!(
+                    "[{} {} {} {}]",
+                    on(n.get()),
+                    ol(&v.files),
+                    ol(&v.metas),
+                    match r {
+                        Ok(()) => "[Ok unit]".to_string(),
+                        Err(e) => format!("[Err {}]", err_obs(&e)),
+                    }
+                )
+            } else {
+                let mut outs = vec![];
+                let res;
+                loop {
+                    match zip::read::read_zipfile_from_stream(&mut src) {
+                        Ok(Some(mut f)) => {
+                            let m = smeta(&f);
+                            // mode 2: the entry is dropped unread (its data is skipped by Drop)
+                            let c = if a[2].n() == 1 { read_loop(&mut f, 4096) } else { "SKIP".to_string() };
+                            outs.push(format!("[{} {}]", m, c));
+                        }
+                        Ok(None) => {
+                            res = "END".to_string();
+                            break;
+                        }
+                        Err(e) => {
+                            res = format!("[Err {}]", err_obs(&e));
+                            break;
+                        }
+                    }
+                    if outs.len() > 10000 {
+                        res = "LOOP".to_string();
+                        break;
+                    }
+                }
+                format!("[{} {} [] {}]", on(n.get()), ol(&outs), res)
+            }
+        }
         "visit" => {
             let mut v = V { files: vec![], metas: vec![] };
             let r = ZipStreamReader::new(Cursor::new(a[0].b().to_vec())).visit(&mut v);
